@@ -23,6 +23,7 @@ def encOf (which : String) (t : List Val) : List Char :=
   | "agg" => encAggregator t
   | "counting" => encCounting t
   | "session" => encSession t
+  | "sessionS" => encSession t     -- the same tuple handed over as a Go struct with string fields
   | _ => encGlobal t
 
 /-- the encoders of the unrepaired tree, only used to tag cases that sit on an old collision -/
